@@ -9,7 +9,8 @@
 (*    "jobs":[{"tasks":[{"c","s","e","fs","fe"}],"recs":[{"q","m","f","c","p","t","ix"}]}],  returned jobs  *)
 (*                        task: c = -1 the '*' job; s = -1 whole contig (contig-per-process)              *)
 (*    "merged":[{"q","m","f","c","p","t"}]  the merged output (empty: the union of the jobs is the output) *)
-(*    "raised": exception type of the parallel run or "",  "pred"/"wrote": scenario replays only}        *)
+(*    "raised": exception type of the parallel run or "",  "pred"/"wrote": scenario replays only,         *)
+(*    "req": api mode only - the fragment_size requested from tag_multiome_multi_processing}              *)
 (* Nothing computed by the driver is trusted: owners, writers, extents, margins and the bag comparison   *)
 (* are all recomputed here.                                                                              *)
 EXTENDS TraceLib, Util
@@ -69,7 +70,13 @@ MarginOK(e) ==
         /\ t.fs <= t.s /\ t.e <= t.fe
         /\ (t.s - t.fs >= mx[t.c] \/ t.fs <= 0)
         /\ (t.fe - t.e >= mx[t.c] \/ t.fe >= CLen(e, t.c))
-InScope(e) == TilingOK(e) /\ WindowsOK(e) /\ MarginOK(e)
+(* the region-tiling API is judged end to end on its REQUEST: "req" = the fragment_size handed to                      *)
+(* tag_multiome_multi_processing; the windows its own tiler produces are part of the system under test, so a tiler     *)
+(* that drops margins shows up as lost / duplicated / changed records.  Hand-made tilings (tasks, scn) are inputs:     *)
+(* there the precondition is on the windows themselves.                                                               *)
+RequestOK(e) == \A c \in 0 .. (Len(e.contigs) - 1) : e.req >= MaxExt(e, c)
+ByRequest(e) == Has(e, "req")
+InScope(e) == IF ByRequest(e) THEN RequestOK(e) ELSE TilingOK(e) /\ WindowsOK(e) /\ MarginOK(e)
 
 (* ---- what was written ---- *)
 JobKeys(e) == [j \in DOMAIN e.jobs |-> { Key(r) : r \in Rng(e.jobs[j].recs) }]
@@ -128,10 +135,12 @@ Verdict(e) ==
 (* informational observations *)
 Notes(i, e, v) ==
     LET tok == TilingOK(e) /\ WindowsOK(e)
-        mok == tok /\ MarginOK(e) IN
-    /\ IF ~TilingOK(e) THEN Note(i, e.tid, "precondition_not_met_tiling") ELSE TRUE
-    /\ IF TilingOK(e) /\ ~WindowsOK(e) THEN Note(i, e.tid, "precondition_not_met_window_outside_contig") ELSE TRUE
-    /\ IF tok /\ ~mok THEN Note(i, e.tid, "precondition_not_met_margin") ELSE TRUE
+        mok == InScope(e) IN
+    /\ IF ByRequest(e) /\ ~mok THEN Note(i, e.tid, "precondition_not_met_requested_fragment_size") ELSE TRUE
+    /\ IF ByRequest(e) /\ mok /\ ~(tok /\ MarginOK(e)) THEN Note(i, e.tid, "api_tiler_windows_below_request") ELSE TRUE
+    /\ IF ~ByRequest(e) /\ ~TilingOK(e) THEN Note(i, e.tid, "precondition_not_met_tiling") ELSE TRUE
+    /\ IF ~ByRequest(e) /\ TilingOK(e) /\ ~WindowsOK(e) THEN Note(i, e.tid, "precondition_not_met_window_outside_contig") ELSE TRUE
+    /\ IF ~ByRequest(e) /\ tok /\ ~mok THEN Note(i, e.tid, "precondition_not_met_margin") ELSE TRUE
     /\ IF ~mok /\ e.raised = "" /\ Judged(e) # "ok" THEN Note(i, e.tid, "differs_outside_precondition") ELSE TRUE
     /\ IF NoSiteMols(e) # {} THEN Note(i, e.tid, "no_site_molecule") ELSE TRUE
     /\ IF mok /\ OutsideMols(e) # {} THEN Note(i, e.tid, "site_outside_every_bin") ELSE TRUE
